@@ -65,6 +65,7 @@ class NContract:
         self.ensures = g("ensures", {})
         self.raises = g("raises", {})
         self.may_raise = tuple(g("may_raise", ()))
+        self.raises_if = g("raises_if", {})
         self.free = g("free", {})
         self.statement = g("statement")
         self.native_call = g("native_call")
@@ -162,6 +163,11 @@ def check_one(c, fn, argv):
                 continue
             if call_clause(cond, argv):
                 fails.append((f"raises:{exc}-if", "returned normally although the raise condition holds"))
+        for exc, cond in c.raises_if.items():
+            if f"raises:{exc}" in c.native_skip or needs_calls(cond):
+                continue
+            if call_clause(cond, argv):
+                fails.append((f"must-raise:{exc}-if", "returned normally although the raise condition holds"))
         outcome = {"returned": short(result)}
     else:
         matched = [e for e in c.raises if exc_matches(raised, e)]
@@ -170,7 +176,7 @@ def check_one(c, fn, argv):
                 pass
             elif not call_clause(c.raises[matched[0]], argv) and f"raises:{matched[0]}" not in c.native_skip:
                 fails.append((f"raises:{matched[0]}-only-if", f"raised {raised!r} although the condition is false"))
-        elif any(exc_matches(raised, e) for e in c.may_raise):
+        elif any(exc_matches(raised, e) for e in c.may_raise) or any(exc_matches(raised, e) for e in c.raises_if):
             pass
         else:
             fails.append((f"no-unexpected:{type(raised).__name__}", "".join(traceback.format_exception_only(type(raised), raised)).strip()))
